@@ -273,7 +273,17 @@ func (c *Crasher) reopen(dir string, im *image, proc bool, cutf int, cut int64, 
 			cv["did"] = true
 			vid, vb := e.V.New(9 + im.id%40)
 			cv["k"], cv["v"] = contKey, vid
-			if im.id%2 == 0 {
+			if c.WithMerge && im.id%3 == 2 {
+				// merge/adoption crashes: the continued run deletes a key and merges again - whatever an
+				// interrupted merge left behind must not come back through the next, successful merge
+				cv["v"] = VNil
+				cv["put"] = Guard(CallTimeout, func() error {
+					if err := db.Delete(e.U.Key(contKey)); err != nil {
+						return err
+					}
+					return db.Merge()
+				})
+			} else if im.id%2 == 0 {
 				cv["put"] = Guard(CallTimeout, func() error { return db.Put(e.U.Key(contKey), vb) })
 			} else {
 				// the further write is a committed batch (a later batch must not revive the records
